@@ -376,7 +376,9 @@ fn run_pipeline(sink: &mut Sink, rng: &mut Rng, args: &Args, ndicts: usize, ntex
         let mut alpha_lengths = false;
         let mut alpha_cat: Option<usize> = None;
         let mut providers = vec![];
-        if rng.chance(1, 2) {
+        // every third dictionary has the MeCab provider with the length candidates whatever the draws say
+        let directed = d % 3 == 1;
+        if rng.chance(1, 2) | directed {
             // MeCab provider in front of the fallback: unk.def written here, one or two lines per category of the
             // character definition, left id != right id so that a mix-up of the two cannot hide
             let chardef = std::fs::read_to_string(format!("{}/char.def", res)).unwrap_or_default();
@@ -408,10 +410,11 @@ fn run_pipeline(sink: &mut Sink, rng: &mut Rng, args: &Args, ndicts: usize, ntex
             std::fs::write(dir.join("unk.def"), unk).unwrap();
             // in half of them the letters get length candidates (1 and 2 characters) instead of the whole run: words then end
             // INSIDE a run of letters, and the position behind them is a position like any other for every provider
-            if rng.chance(1, 2) {
+            if rng.chance(1, 2) | directed {
                 let own: String = chardef.lines().map(|l| if l.trim_start().starts_with("ALPHA") && !l.trim_start().starts_with("0x") { "ALPHA 1 0 2".to_string() } else { l.to_string() }).collect::<Vec<_>>().join("\n");
                 std::fs::write(dir.join("char.def"), own).unwrap();
                 alpha_lengths = true;
+                sink.tag("mecab_alpha_length_candidates");
             }
             providers.push(json!({"class": "com.worksap.nlp.sudachi.MeCabOovPlugin", "charDef": "char.def", "unkDef": "unk.def", "userPOS": "allow"}));
         }
@@ -500,10 +503,11 @@ fn run_pipeline(sink: &mut Sink, rng: &mut Rng, args: &Args, ndicts: usize, ntex
                         }
                     }
                 }
+                // read before the results are collected: collecting hands the input buffer over to the morpheme list
+                let norm_chars: Vec<char> = tok.verif_input().current_chars().to_vec();
                 let mut ml = sudachi::analysis::mlist::MorphemeList::empty(&dict);
                 ml.collect_results(&mut tok).unwrap();
                 let morph: Vec<(u32, usize, i32)> = ml.iter().map(|m| (m.word_id().as_raw(), m.end_c(), m.total_cost())).collect();
-                let norm_chars: Vec<char> = tok.verif_input().current_chars().to_vec();
                 Some((all, eos, nchars, morph, expected, norm_chars))
             });
             let (all, eos, nchars, morph, expected, norm_chars) = match r {
